@@ -453,6 +453,18 @@ def valueAsCpp (e : EnumInfo) (v : Seg) : List Char := replaceDots (dotted e.ns 
 /-- `ENumInfo.full_name` = `str(ENumInfo)`: the type name of a `terminal_enum_value` -/
 def EnumInfo.fullName (e : EnumInfo) : List Char := dotted e.ns ++ '.' :: e.name
 
+/-- one `define_enum` metadata dictionary -/
+structure EnumDecl where
+  ns : List Char
+  name : Seg
+  values : List Seg
+deriving Repr, DecidableEq
+
+/-- `process_metadata` over the `define_enum` entries, in processing order -/
+def defineAll (st : NsState) : List EnumDecl → NsState
+  | [] => st
+  | d :: rest => defineAll (defineEnum st d.ns d.name d.values) rest
+
 inductive Res where
   | ns (p : List Seg)
   | enum (e : EnumInfo)
